@@ -467,4 +467,11 @@ theorem pinv_run (pred : Nat → Bool) (steps : List PStep) : ∀ (s : PState), 
     simp only [PState.run, List.foldl_cons]
     exact ih _ (pinv_step pred s st h)
 
+/-! ### 64-bit wrap-around -/
+
+theorem wrap64_of_inRange (x : Int) (h1 : -9223372036854775808 ≤ x) (h2 : x < 9223372036854775808) :
+    wrap64 x = x := by
+  unfold wrap64
+  omega
+
 end OmplModel.Ptc
